@@ -8,24 +8,18 @@ rsync -a --exclude target /repo/ "$W/repo/"
 rsync -a /verif/harness/ "$W/harness/"
 sed -i "s|\"/repo|\"$W/repo|g" "$W/harness/Cargo.toml"
 cp /verif/known_findings.json "$W/known_findings.json"
-cat > "$W/harness/src/props/mod.rs" <<EOM
-use crate::fw::Ctx;
+cat > "$W/harness/src/bin/$lower.rs" <<EOM
+//! $ID monitor binary (monitor source: ../props/$lower.rs)
+#![allow(unused_imports, dead_code)]
+#[macro_use]
+extern crate linfa_verif;
+use linfa_verif::{fw, gen, oracle, ser, zoo};
 
-pub mod c01;
-pub mod $lower;
+#[path = "../props/$lower.rs"]
+mod m;
 
-pub fn run(ctx: &Ctx) -> bool {
-    match ctx.prop {
-        "C01" => c01::run(ctx),
-        "$ID" => $lower::run(ctx),
-        _ => return false,
-    }
-    true
-}
-
-pub fn child(args: &[String]) -> i32 {
-    let _ = args;
-    2
+fn main() {
+    linfa_verif::main_for("$ID", m::run, None);
 }
 EOM
 [ -f "$W/harness/src/props/$lower.rs" ] || cat > "$W/harness/src/props/$lower.rs" <<EOM
@@ -40,8 +34,8 @@ EOM
 cat > "$W/run.sh" <<EOM
 #!/usr/bin/env bash
 # build + run the monitor of this workspace: ./run.sh quick|thorough [--replay f]
-cd $W/harness && CARGO_NET_OFFLINE=true RUSTFLAGS=-Awarnings cargo build --release --offline 2>&1 | grep -E "^(error|warning: unus)" -A14 | head -120
-VERIF_DIR=$W exec $W/harness/target/release/vcheck $ID "\$@"
+cd $W/harness && CARGO_NET_OFFLINE=true RUSTFLAGS=-Awarnings cargo build --release --offline --bin $lower 2>&1 | grep -E "^(error|warning: unus)" -A14 | head -120
+VERIF_DIR=$W exec $W/harness/target/release/$lower "\$@"
 EOM
 chmod +x "$W/run.sh"
 echo "$W ready"
